@@ -141,18 +141,22 @@ def forward_replay(rep, fnd, tab, records, pid, pin_every=7):
             try:
                 m32 = fwd_module(taps, J, include_scale=True)
                 yls32, yhs32 = m32(X.float())
+                la_, ha_ = dtasm.forward(tab, r, {a_: np.abs(b_) for a_, b_ in taps.items()})      # the operator of |taps|: absolute gain
+                again = max([float(np.abs(q_).max()) for q_ in la_] + [float(np.abs(d_[pt_]).max()) for lv_ in ha_ for d_ in lv_ for pt_ in ("re", "im")] + [1.0])
+                exact32 = again * 4 < 2 ** 24           # every partial sum representable: float32 arithmetic is exact
                 for j in range(J):
                     if yls32[j].dtype != torch.float32 or yhs32[j].dtype != torch.float32:
                         ok, what = False, "float32 input: level %d comes back as %s / %s" % (j + 1, yls32[j].dtype, yhs32[j].dtype)
                         break
-                    if not dwtlib.eq_int(yls32[j][:, 0].reshape(H * W, -1).double().numpy().T, lows[j]):
+                    lo32 = yls32[j][:, 0].reshape(H * W, -1).double().numpy().T
+                    if lo32.shape != lows[j].shape or (not dwtlib.eq_int(lo32, lows[j]) if exact32 else float(np.abs(lo32 - lows[j]).max()) > 16 * 1.2e-7 * again):
                         ok, what = False, "float32 input: level %d lowpass differs from the (exactly representable) reference operator" % (j + 1)
                         break
                     for o in range(6):
                         for ri, part in enumerate(("re", "im")):
                             v = yhs32[j][:, 0, o, :, :, ri].reshape(H * W, -1).double().numpy().T * SQ2
                             want = highs[j][o][part]
-                            if v.shape != want.shape or float(np.abs(v - want).max()) > 8 * 1.2e-7 * (float(np.abs(want).max()) + 1.0):
+                            if v.shape != want.shape or float(np.abs(v - want).max()) > 8 * 1.2e-7 * ((float(np.abs(want).max()) + 1.0) if exact32 else 2 * again):
                                 ok, what = False, "float32 input: level %d orientation %d (%s part) differs from the (exactly representable) reference operator" % (j + 1, o, part)
                                 break
                         if not ok:
@@ -292,7 +296,7 @@ def _absent_value(kind, like):
     return like.new_zeros([])           # the 0-dim placeholder the forward transform emits for skipped levels
 
 
-def extract_inverse(taps, rec, absent, abs_low, akind):
+def extract_inverse(taps, rec, absent, abs_low, akind, f32=False):
     """matrix (pixels x pyramid coefficients) of the real DTCWTInverse on the basis of the whole pyramid"""
     trail = rec["trail"]
     J = len(trail)
@@ -310,6 +314,18 @@ def extract_inverse(taps, rec, absent, abs_low, akind):
         h[off[j][0]:off[j][1], 0] = E
         yh.append(_absent_value(akind, yl) if j in absent else h)
     low = _absent_value(akind, yl) if abs_low else yl
+    if f32:
+        torch.set_default_dtype(torch.float32)
+        try:
+            m = inv_module(taps)
+            low = low.float() if isinstance(low, torch.Tensor) and low.is_floating_point() else low
+            yh = [h.float() if isinstance(h, torch.Tensor) and h.is_floating_point() else h for h in yh]
+            y = m((low, yh))
+        finally:
+            torch.set_default_dtype(torch.float64)
+        if y.dtype != torch.float32:
+            raise TypeError("float32 pyramid, output %s" % y.dtype)
+        return y[:, 0].reshape(total, -1).double().numpy().T, tuple(y.shape[-2:])
     m = inv_module(taps)
     y = m((low, yh))
     return y[:, 0].reshape(total, -1).numpy().T, tuple(y.shape[-2:])
@@ -368,6 +384,26 @@ def inverse_replay(rep, fnd, tab, records, pid):
             lowpart = Y[:, :nl]
             hp, dev = near_int(Y[:, nl:] * SQ2)
             good = dwtlib.eq_int(lowpart, Ml[:, :nl]) and dev < 1e-6 and dwtlib.eq_int(hp, Mh[:, nl:])
+        if good and k % 2 == 0:
+            # the same operator from a FLOAT32 pyramid (integer taps, indicator coefficients: exactly representable up to the final
+            # 1/sqrt 2): a dtype-dependent algorithm cannot hide behind rounding
+            rep.count("inverse_configs_float32")
+            try:
+                Y32, shp32 = extract_inverse(taps, r, absent, abs_low, akind, f32=True)
+                # the band-pass coefficients are divided by sqrt 2 BEFORE the synthesis filters (c2q), so their path is not exact in
+                # float32: the rounding of that one factor is amplified by the filters' absolute gain - the operator of |taps|
+                Mla, Mha, _ = dtasm.inverse(tab, r, {a_: np.abs(b_) for a_, b_ in taps.items()}, absent, abs_low)
+                again = max(float(np.abs(Mla).max()), float(np.abs(Mha).max()), 1.0)
+                low_ok = dwtlib.eq_int(Y32[:, :nl], Ml[:, :nl]) if again * 4 < 2 ** 24 else \
+                    float(np.abs(Y32[:, :nl] - Ml[:, :nl]).max()) <= 16 * 1.2e-7 * again      # exact while every partial sum is representable
+                good32 = shp32 == (er, ec) and low_ok \
+                    and float(np.abs(Y32[:, nl:] * SQ2 - Mh[:, nl:]).max()) <= 16 * 1.2e-7 * again
+                why = "differs from the reference operator (low-pass columns: exactly; band-pass columns: beyond 16 eps32 x the absolute gain)"
+            except Exception as e:   # noqa
+                good32, why = False, "raised %r" % (e,)
+            if not good32:
+                rep.violation("DTCWTInverse of a FLOAT32 pyramid %s at %s" % (why, cfg), dict(case, dtype="float32"))
+                continue
         if good:
             n_ok += 1
             if r["outcome"] != "ok":
